@@ -8,11 +8,14 @@ start).  `none` is `NaN`.
 Faithfully reproduced oddities:
   * no observation at all, or ≥ 2 observations with a method string other than
     "Constant"/"Variable": `z_gw` is never bound → `UnboundLocalError` (`E:unbound`);
-  * "Variable": `z_gw.loc[date] = depth` for a date that is **not a simulation day** enlarges the
-    series — the observation is appended *after the last day* (whatever its date) and takes part
-    in the interpolation there; the result is longer than the simulation;
-  * "Variable": days before the first observation stay `NaN` (`Series.interpolate()` only fills
+  * "Constant": the rows are applied in the order given (not sorted by date);
+  * "Variable": days before the first observation stay `NaN` (`Series.interpolate` only fills
     forward).
+History: until the repair recorded in `known_findings.txt` (property C19/C14, "Variable"
+observations dated outside the simulation period) the "Variable" series was built by label
+assignment into the day-indexed series followed by *positional* interpolation: an observation
+dated outside the period was appended after the last day, whatever its date.  The model below is
+the repaired code: interpolation in time over the date-sorted observations.
 -/
 
 namespace Aqua
@@ -34,44 +37,39 @@ def gwConstAt (i : Int) : Bool → List (Int × α) → Option α → Option α
 def gwConstant (n : Nat) (obs : List (Int × α)) : List (Option α) :=
   (List.range n).map (fun (i : Nat) => gwConstAt (Int.ofNat i) true obs none)
 
-/-- `z_gw.loc[date] = depth` on the day-indexed part -/
-def setAt : Nat → α → List (Option α) → List (Option α)
-  | _, _, [] => []
-  | 0, v, _ :: xs => some v :: xs
-  | k + 1, v, x :: xs => x :: setAt k v xs
+/-- `obs[~obs.index.duplicated(keep="last")]`: a later row overrides an earlier one carrying the
+same date. -/
+def dedupLast : List (Int × α) → List (Int × α)
+  | [] => []
+  | (d, v) :: rest =>
+    if rest.any (fun q => decide (q.1 = d)) then dedupLast rest else (d, v) :: dedupLast rest
 
-/-- `z_gw.loc[date] = depth` for a date outside the index: overwrite an earlier appended label
-or append a new one. -/
-def setExtra (d : Int) (v : α) : List (Int × α) → List (Int × α)
-  | [] => [(d, v)]
-  | (d', v') :: es => if d' = d then (d', v) :: es else (d', v') :: setExtra d v es
+/-- insertion into a date-sorted list (`sort_index()`; dates are distinct after `dedupLast`) -/
+def insertByDate (p : Int × α) : List (Int × α) → List (Int × α)
+  | [] => [p]
+  | q :: qs => if p.1 ≤ q.1 then p :: q :: qs else q :: insertByDate p qs
 
-def placeObs (n : Nat) : List (Int × α) → List (Option α) × List (Int × α) →
-    List (Option α) × List (Int × α)
-  | [], st => st
-  | (d, v) :: rest, (base, extra) =>
-    if 0 ≤ d ∧ d < (n : Int) then placeObs n rest (setAt d.toNat v base, extra)
-    else placeObs n rest (base, setExtra d v extra)
+def sortByDate (l : List (Int × α)) : List (Int × α) := l.foldr insertByDate []
 
-/-- positions and values of the valid entries -/
-def validPts : Nat → List (Option α) → List (α × α)
-  | _, [] => []
-  | k, none :: xs => validPts (k + 1) xs
-  | k, some v :: xs => ((k : α), v) :: validPts (k + 1) xs
+/-- `np.interp` in time over the date-sorted observations, to the right of `lo`: the last depth
+after the last observation, else the straight line through `lo` and the next observation. -/
+def gwVarGo (i : Int) : (Int × α) → List (Int × α) → α
+  | lo, [] => lo.2
+  | lo, p :: ps =>
+    if p.1 ≤ i then gwVarGo i p ps
+    else (p.2 - lo.2) / (((p.1 - lo.1).toNat : Nat) : α) * (((i - lo.1).toNat : Nat) : α) + lo.2
 
-/-- `Series.interpolate()` : linear in the position between valid entries
-(`np.interp(position, validPositions, validValues)`), last value held after the last valid
-entry, `NaN` kept before the first. -/
-def fillGaps (pts : List (α × α)) : Nat → Bool → List (Option α) → List (Option α)
-  | _, _, [] => []
-  | k, _, some v :: xs => some v :: fillGaps pts (k + 1) true xs
-  | k, seen, none :: xs =>
-    (if seen then interp (k : α) pts else none) :: fillGaps pts (k + 1) seen xs
+/-- `obs.reindex(obs.index.union(days)).interpolate(method="time")` at day `i`: `NaN` before the
+first observation (interpolation only fills forward). -/
+def gwVarAt (i : Int) : List (Int × α) → Option α
+  | [] => none
+  | p :: ps => if i < p.1 then none else some (gwVarGo i p ps)
 
+/-- "Variable": linear interpolation *in time* between the observations, wherever they are dated
+(inside the simulation period or not), restricted to the simulation days. -/
 def gwVariable (n : Nat) (obs : List (Int × α)) : List (Option α) :=
-  let st := placeObs n obs (List.replicate n none, [])
-  let s := st.1 ++ st.2.map (fun e => some e.2)
-  fillGaps (validPts 0 s) 0 false s
+  let pts := sortByDate (dedupLast obs)
+  (List.range n).map (fun (i : Nat) => gwVarAt (Int.ofNat i) pts)
 
 /-- `read_groundwater_table` with `water_table == "Y"`. -/
 def gwSeries (n : Nat) (me : GwMethod) (obs : List (Int × α)) : Except String (List (Option α)) :=
